@@ -144,3 +144,18 @@ def run(ctx):
             ks.append("serial>=2^32:%s" % (int(t[2]) >= 2**32 - 1))
         return ks
     ctx.diff_domain("pid", cases, oracle=oracle, nontrivial=nontrivial, classify=classify)
+    # on a started node: the identifiers of spawned processes carry the creation the port mapper assigned to the node
+    # (the harness's stand-in assigns 7), and so do references
+    ncases = ["node 0 ;; spawn ;; spawn ;; spawn", "node 0 ;; spawn ;; monitor $0 $0 ;; spawn"]
+
+    def node_oracle(case, impl):
+        if impl.startswith(("PANIC", "CRASH", "TIMEOUT", "start-err")):
+            return ("violation", "the node did not start: " + impl[:60])
+        for part in impl.split(" ;; "):
+            w = part.split()
+            if w[:2] == ["pid", "p"] and int(w[5]) != 7:
+                return ("violation", "a process identifier carries creation %s while the node's creation is 7" % w[5])
+            if w[:2] == ["ref", "r"] and int(w[3]) != 7:
+                return ("violation", "a reference carries creation %s while the node's creation is 7" % w[3])
+        return None
+    ctx.diff_domain("node", ncases, oracle=node_oracle, nontrivial=lambda c, i: c, classify=lambda c, i: ["op:node-spawn"])
